@@ -306,9 +306,10 @@ Definition at_alt_end (s : str) : bool :=
   | r => match lit [124; 124] r with Some _ => true | None => false end
   end.
 
-(** [range()] (after the repair): a hyphen range is a whole alternative; otherwise a
-    blank-separated comparator set. *)
-Definition range_p (s : str) : option (list boundset * str) :=
+(** [range()] (after the repairs): leading blanks are skipped; a hyphen range is a whole
+    alternative; otherwise a blank-separated comparator set. *)
+Definition range_p (s0 : str) : option (list boundset * str) :=
+  let s := space0 s0 in
   match hyphen_p s with
   | Some (b, r) => if at_alt_end r then Some (opt_to_list b, r) else simples_p s
   | None => simples_p s
